@@ -1,6 +1,8 @@
 mod batch;
 mod c04;
 mod c14;
+mod c15;
+mod c16;
 mod c17;
 mod c36;
 mod check;
@@ -81,9 +83,23 @@ fn main() {
             let ctx = check::Ctx::new(&prop, tier);
             match prop.as_str() {
                 "C17" => c17::run(&ctx),
+                "C16" => c16::run(&ctx),
+                "C15" => c15::run(&ctx),
                 other => {
                     eprintln!("no check for {other}");
                     std::process::exit(2);
+                }
+            }
+        }
+        "corpus" => {
+            for (name, cs) in [("A", corpus::corpus_a()), ("B", corpus::corpus_b()), ("C", corpus::corpus_c())] {
+                let comparable = cs.iter().filter(|c| c.comparable()).count();
+                let ro = cs.iter().filter(|c| !c.program.read_only.is_empty()).count();
+                println!("corpus {name}: {} cases, {comparable} comparable, {ro} with read-only annotations, {} diagnostics", cs.len(), cs.iter().filter(|c| c.diagnostics).count());
+                if args.iter().any(|a| a == "-v") {
+                    for c in &cs {
+                        println!("  {} comparable={} skip={} tags={:?} ro={:?}", c.label, c.comparable(), c.skip, c.tags, c.program.read_only);
+                    }
                 }
             }
         }
